@@ -379,6 +379,18 @@ def expand_phi_stores(body, stores):
             yield b, i, s
             continue
         pr = q.get('p') or []
+        # look through plain copies of the aggregate / value (`t = move ret_of_helper; field = t.0`)
+        hops = 0
+        while hops < 5:
+            sd_ = body.single_def_at(q['l'], b)
+            if sd_ is None or sd_[2] != 'assign' or sd_[3]['rv']['k'] != 'use':
+                break
+            src_ = mir.op_place(sd_[3]['rv']['op'])
+            if src_ is None or 1 <= src_['l'] <= body.arg_count or (src_.get('p') and src_['p'][0] == '*'):
+                break
+            q = dict(src_, p=(list(src_.get('p') or []) + list(q.get('p') or [])) or None)
+            hops += 1
+        pr = q.get('p') or []
         if body.single_def_at(q['l'], b) is not None or (pr and pr[0] == '*'):
             yield b, i, s
             continue
